@@ -122,6 +122,107 @@ static void scale_relations(void)
     }
 }
 
+/* both calling forms of an operation - a_complex_f(&w, z) and { w = z; a_complex_f_(&w); } - must give the same value;
+   the real-argument variants agree with the complex function on the real axis where no branch cut lies */
+static void same(char const *fn, a_complex z, a_complex w1, a_complex w2)
+{
+    fprintf(f, "{\"k\":\"e\",\"fn\":\"%s\",\"z\":", fn);
+    put_z(z);
+    fputs(",\"w\":", f); put_z(w1);
+    fputs(",\"ws\":", f); put_z(w2);
+    fputs("}\n", f);
+    ++n_lines;
+}
+typedef void (*ufn3)(a_complex *, a_complex);
+static struct { char const *name; ufn3 f3; ufn f1; } const forms[] = {
+    {"sqrt", a_complex_sqrt, a_complex_sqrt_}, {"exp", a_complex_exp, a_complex_exp_}, {"log", a_complex_log, a_complex_log_},
+    {"log2", a_complex_log2, a_complex_log2_}, {"log10", a_complex_log10, a_complex_log10_},
+    {"sin", a_complex_sin, a_complex_sin_}, {"cos", a_complex_cos, a_complex_cos_}, {"tan", a_complex_tan, a_complex_tan_},
+    {"sec", a_complex_sec, a_complex_sec_}, {"csc", a_complex_csc, a_complex_csc_}, {"cot", a_complex_cot, a_complex_cot_},
+    {"asin", a_complex_asin, a_complex_asin_}, {"acos", a_complex_acos, a_complex_acos_}, {"atan", a_complex_atan, a_complex_atan_},
+    {"asec", a_complex_asec, a_complex_asec_}, {"acsc", a_complex_acsc, a_complex_acsc_}, {"acot", a_complex_acot, a_complex_acot_},
+    {"sinh", a_complex_sinh, a_complex_sinh_}, {"cosh", a_complex_cosh, a_complex_cosh_}, {"tanh", a_complex_tanh, a_complex_tanh_},
+    {"sech", a_complex_sech, a_complex_sech_}, {"csch", a_complex_csch, a_complex_csch_}, {"coth", a_complex_coth, a_complex_coth_},
+    {"asinh", a_complex_asinh, a_complex_asinh_}, {"acosh", a_complex_acosh, a_complex_acosh_}, {"atanh", a_complex_atanh, a_complex_atanh_},
+    {"asech", a_complex_asech, a_complex_asech_}, {"acsch", a_complex_acsch, a_complex_acsch_}, {"acoth", a_complex_acoth, a_complex_acoth_},
+    {"inv", a_complex_inv, a_complex_inv_}, {"conj", a_complex_conj, a_complex_conj_}, {"neg", a_complex_neg, a_complex_neg_}, {"proj", a_complex_proj, a_complex_proj_},
+};
+static void both_forms(void)
+{
+    static double const cs[] = {0.75, -1.1875, 3, -0.3125};
+    for (size_t k = 0; k < sizeof(forms) / sizeof(forms[0]); ++k) for (int i = 0; i < 4; ++i) for (int j = 0; j < 4; ++j)
+    {
+        a_complex z, w1, w2;
+        z.real = (a_real)cs[i]; z.imag = (a_real)cs[j];
+        w1.real = 77; w1.imag = 88;
+        forms[k].f3(&w1, z);
+        w2 = z; forms[k].f1(&w2);
+        same(forms[k].name, z, w1, w2);
+    }
+    for (int i = 0; i < 4; ++i) for (int j = 0; j < 4; ++j)
+    {
+        a_complex x, y, w1, w2;
+        a_real r = (a_real)cs[(i + j) % 4];
+        x.real = (a_real)cs[i]; x.imag = (a_real)cs[j]; y.real = (a_real)cs[(i + 1) % 4]; y.imag = (a_real)cs[(j + 3) % 4];
+        a_complex_add(&w1, x, y); w2 = x; a_complex_add_(&w2, y); same("add", x, w1, w2);
+        a_complex_sub(&w1, x, y); w2 = x; a_complex_sub_(&w2, y); same("sub", x, w1, w2);
+        a_complex_mul(&w1, x, y); w2 = x; a_complex_mul_(&w2, y); same("mul", x, w1, w2);
+        a_complex_div(&w1, x, y); w2 = x; a_complex_div_(&w2, y); same("div", x, w1, w2);
+        a_complex_pow(&w1, x, y); w2 = x; a_complex_pow_(&w2, y); same("pow", x, w1, w2);
+        a_complex_logb(&w1, x, y); w2 = x; a_complex_logb_(&w2, y); same("logb", x, w1, w2);
+        a_complex_pow_real(&w1, x, r); w2 = x; a_complex_pow_real_(&w2, r); same("pow_real", x, w1, w2);
+        a_complex_add_real(&w1, x, r); w2 = x; a_complex_add_real_(&w2, r); same("add_real", x, w1, w2);
+        w2 = x; w2.real += r; same("add_real_def", x, w1, w2);
+        a_complex_add_imag(&w1, x, r); w2 = x; a_complex_add_imag_(&w2, r); same("add_imag", x, w1, w2);
+        w2 = x; w2.imag += r; same("add_imag_def", x, w1, w2);
+        a_complex_sub_real(&w1, x, r); w2 = x; a_complex_sub_real_(&w2, r); same("sub_real", x, w1, w2);
+        w2 = x; w2.real -= r; same("sub_real_def", x, w1, w2);
+        a_complex_sub_imag(&w1, x, r); w2 = x; a_complex_sub_imag_(&w2, r); same("sub_imag", x, w1, w2);
+        w2 = x; w2.imag -= r; same("sub_imag_def", x, w1, w2);
+        a_complex_mul_real(&w1, x, r); w2 = x; a_complex_mul_real_(&w2, r); same("mul_real", x, w1, w2);
+        a_complex_mul_imag(&w1, x, r); w2 = x; a_complex_mul_imag_(&w2, r); same("mul_imag", x, w1, w2);
+        a_complex_div_real(&w1, x, r); w2 = x; a_complex_div_real_(&w2, r); same("div_real", x, w1, w2);
+        a_complex_div_imag(&w1, x, r); w2 = x; a_complex_div_imag_(&w2, r); same("div_imag", x, w1, w2);
+        /* equality tests: reflexive, and false as soon as one component differs */
+        w1.real = (a_real)(a_complex_eq(x, x) && !a_complex_ne(x, x)); w1.imag = (a_real)(!a_complex_eq(x, y) == a_complex_ne(x, y));
+        w2.real = 1; w2.imag = 1; same("eq_ne", x, w1, w2);
+        w2 = x; w2.imag = (a_real)(x.imag + 1);
+        w1.real = (a_real)a_complex_eq(x, w2); w1.imag = (a_real)a_complex_ne(x, w2); w2.real = 0; w2.imag = 1; same("eq_ne_imag", x, w1, w2);
+    }
+}
+/* real-argument variants on the part of the real axis that is free of branch cuts (close to the complex function of x + 0i),
+   and on the cut (only finiteness and agreement between build configurations is judged there) */
+static void real_variants(void)
+{
+    static double const in[] = {-1, -0.75, -0.3125, 0, 0.125, 0.5, 1};          /* |x| <= 1 */
+    static double const out[] = {-20, -3, -1.1875, 1.1875, 3, 20};              /* |x| > 1 */
+    a_complex z, w1, w2;
+    z.imag = 0;
+    for (int i = 0; i < 7; ++i)
+    {
+        z.real = (a_real)in[i];
+        a_complex_asin_real(&w1, z.real); w2 = z; a_complex_asin_(&w2); hom("asin_real", z, w2, w1);
+        a_complex_acos_real(&w1, z.real); w2 = z; a_complex_acos_(&w2); hom("acos_real", z, w2, w1);
+        if (fabs(in[i]) < 1) { a_complex_atanh_real(&w1, z.real); w2 = z; a_complex_atanh_(&w2); hom("atanh_real", z, w2, w1); }
+        if (in[i] != 0 && fabs(in[i]) < 1)
+        {
+            a_complex_asec_real(&w1, z.real); hom("asec_real_cut", z, w1, w1);
+            a_complex_acsc_real(&w1, z.real); hom("acsc_real_cut", z, w1, w1);
+        }
+        if (in[i] < 1) { a_complex_acosh_real(&w1, z.real); hom("acosh_real_cut", z, w1, w1); }
+    }
+    for (int i = 0; i < 6; ++i)
+    {
+        z.real = (a_real)out[i];
+        a_complex_asec_real(&w1, z.real); w2 = z; a_complex_asec_(&w2); hom("asec_real", z, w2, w1);
+        a_complex_acsc_real(&w1, z.real); w2 = z; a_complex_acsc_(&w2); hom("acsc_real", z, w2, w1);
+        if (out[i] > 1) { a_complex_acosh_real(&w1, z.real); w2 = z; a_complex_acosh_(&w2); hom("acosh_real", z, w2, w1); }
+        a_complex_asin_real(&w1, z.real); hom("asin_real_cut", z, w1, w1);
+        a_complex_acos_real(&w1, z.real); hom("acos_real_cut", z, w1, w1);
+        a_complex_atanh_real(&w1, z.real); hom("atanh_real_cut", z, w1, w1);
+    }
+}
+
 int main(int argc, char **argv)
 {
     if (argc < 2) { return 2; }
@@ -213,6 +314,8 @@ int main(int argc, char **argv)
         }
     }
     scale_relations();
+    both_forms();
+    real_variants();
     /* real helpers (C11) */
     static double const rx[] = {1e-300, 1e-18, 1e-9, 1e-5, 0.01, 0.3, 0.5, 0.75, 0.99, 1.0, 1.5, 2.0, 2.5, 10.0, 1e5, 6.7e7, 1e8, 1e10, 1e20, 1e150, 1e300};
     for (size_t i = 0; i < sizeof(rx) / sizeof(rx[0]); ++i)
